@@ -43,12 +43,18 @@ def check(ctx):
 def full_queue_shutdown(ctx, thorough, protos, mirror):
     drv = ctx.go_build_test("vflow", ["vflow/shutdown_verif_test.go"])
     d = ctx.subdir("c15m" if mirror else "c15")
+    from props import c13
     for proto in protos:
         out = os.path.join(d, "sd-%s.json" % proto)
         udp = __import__("socket").SOCK_DGRAM
+        # decodable datagrams in the backlog: the workers have messages to publish while shutdown() runs
+        setup, data = c13.backlog_dgrams(ctx, proto, 120)
+        dg = os.path.join(d, "dgrams-%s.json" % proto)
+        with open(dg, "w") as fh:
+            json.dump({"setup": setup, "data": data}, fh)
         rc, log, to = ctx.go_run(drv, "TestVerifShutdownFullQueue", timeout=120,
                                  env={"VERIF_OUT": out, "VERIF_PROTO": proto, "VERIF_PORT": e2e.free_port(udp),
-                                      "VERIF_MIRROR": 1 if mirror else 0, "VERIF_MIRROR_PORT": e2e.free_port(udp),
+                                      "VERIF_MIRROR": 1 if mirror else 0, "VERIF_MIRROR_PORT": e2e.free_port(udp), "VERIF_DGRAMS": dg,
                                       "VERIF_HOLD_MS": 8000 if thorough else 3500})
         ctx.count([proto, "full-queue-shutdown", mirror])
         if rc != 0 or not os.path.exists(out):
